@@ -72,6 +72,7 @@ Definition input_of (t : tok) : list input :=
     else if n =? "back_end" then [IBackEnd]
     else if n =? "back_no_keepalive" then [IBackNoKeepAlive]
     else if n =? "back_close" then [IBackClose]
+    else if n =? "back_garbage" then [IBackGarbage]
     else if n =? "front_write" then [IFrontWrite true]
     else if n =? "front_write_partial" then [IFrontWrite false]
     else if n =? "front_timeout" then [IFrontTimeout]
